@@ -539,6 +539,64 @@ static void cor_case(uint64_t idx, void *arg)
 }
 
 /* ======================================================================== */
+/* phase mixed: callback and coroutine interface on one multiplexer          */
+
+/* A packet made by vbi_dvb_mux_cor() is read only in part (one call with a small buffer), then a frame is given to
+ * vbi_dvb_mux_feed() - accepted or rejected -, then another frame is drained through vbi_dvb_mux_cor().  The library
+ * documents that the unread rest of the first packet is lost; what comes out afterwards must be complete packets of
+ * the later accepted frames and nothing else ("a rejected frame produces no output at all"): run_frame() judges the
+ * callback output of X and the coroutine output of B with the independent parser, each against its own input lines
+ * (seed C06-8: a rejected feed left the pending packet in place, overwritten with the rejected frame's data units). */
+static const unsigned MIX_SIZES[] = { 1, 4, 45, 46, 47, 92, 100, 138, 183, 187, 188, 189, 230, 367 };
+static void mixed_case(uint64_t idx, void *arg)
+{
+        static struct run r;
+        struct h_cfg cfg; memset(&cfg, 0, sizeof cfg);
+        int xi = idx % NLETTERS, ci = idx / NLETTERS;
+        cfg.did = (ci & 1) ? 0x99 : 0x10; ci >>= 1;
+        cfg.ts = ci & 1; cfg.pid = 0x1234; ci >>= 1;
+        static const struct { unsigned mn, mx; } sz[3] = { { 184, 65504 }, { 368, 368 }, { 184, 184 } };
+        cfg.minsz = sz[ci].mn; cfg.maxsz = sz[ci].mx;
+        static const int AL[3] = { 0, 5, 1 }, BL[2] = { 2, 3 };
+        uint64_t ev = 0; int pending_seen = 0;
+        for (int ai = 0; ai < 3; ai++) for (int bi = 0; bi < 2; bi++) for (unsigned ki = 0; ki < sizeof MIX_SIZES / sizeof *MIX_SIZES; ki++) {
+                struct h_frame A, X, B; letter_frame(AL[ai], 0, &A); letter_frame(xi, 1, &X); letter_frame(BL[bi], 2, &B);
+                if (must_accept(&A, &cfg) != A_MUST || must_accept(&B, &cfg) != A_MUST) continue;
+                unsigned k = MIX_SIZES[ki];
+                h_bad = 0;
+                snprintf(CTX, sizeof CTX, "%s mixed: cor(%s) read %u bytes only; feed(%s); cor(%s)", cfg_str(&cfg), letter_names[AL[ai]], k, letter_names[xi], letter_names[BL[bi]]);
+                mc_case(case_key(IF_COR, &cfg, &A), "%s", CTX);
+                run_begin(&r, &cfg);
+                {       /* one coroutine call with a buffer of k bytes: the rest of the packet stays pending */
+                        struct m_sub s; m_prepare(&A, &s);
+                        uint8_t *buf = malloc(k), *p = buf; unsigned left = k;
+                        const vbi_sliced *sp = s.sl; unsigned s_left = A.n;
+                        vbi_bool ok = vbi_dvb_mux_cor(r.mx, &p, &left, &sp, &s_left, A.mask, s.raw, s.has_sp ? &s.sp : NULL, A.pts);
+                        if (!ok) h_viol("legal frame rejected", "mixed: first frame %s", frame_str(&A));
+                        else if (r.mx->cor_offset < r.mx->cor_end) pending_seen++;
+                        free(buf); m_release(&s);
+                }
+                OUT_N = 0; PES_N = 0; r.ps.cc_next = -1;     /* what was read of the first packet is not judged; TS counters restart */
+                if (!h_bad) {
+                        int a = run_frame(&r, &X, IF_FEED, NULL, NULL, "frame given to feed() while a coroutine packet is pending");
+                        if (a == 0) mc_outcome("mixed: feed() rejects (%s) while a packet is pending", reject_class(&X, &cfg));
+                        else if (a == 1) mc_outcome("mixed: feed() accepts while a packet is pending");
+                        if (a >= 0) {
+                                unsigned whole = 70000;
+                                int b = run_frame(&r, &B, IF_COR, cor_const, &whole, "frame drained through cor() after the feed() call");
+                                if (b == 0) h_viol("legal frame rejected", "mixed: frame after the feed() call %s", frame_str(&B));
+                                if (b == 1 && !h_bad && !cfg.ts && !(X.n && !X.l[0].line) ) run_finish(&r);
+                        }
+                }
+                run_end(&r);
+                ev += r.evals + 1;
+        }
+        if (pending_seen) mc_distinct(0xD1000000ull + idx);
+        mc_count("evaluations", ev); mc_count("mixed_runs_with_a_pending_packet", pending_seen);
+        if (idx == 6) mc_sample("mixed: %s", CTX);
+}
+
+/* ======================================================================== */
 /* phase misc: id variants, masks, PTS, PIDs, unaligned size settings        */
 
 static void misc_case(uint64_t idx, void *arg)
@@ -609,7 +667,7 @@ int main(int argc, char **argv)
         mc_meta("level", "model_checking");
         mc_meta("technique", "bounded-exhaustive frames x configurations through the real multiplexer, independent standards parser + library demultiplexer round trip; E2 over frame sequences with canonical multiplexer/demultiplexer state; E1 over coroutine buffer sizes");
         mc_meta("rule", "a case is one (frame or frame sequence, configuration, interface); distinct counts (frame, data_identifier, PES/TS) resp. merged E2 states; every case reaches generate_pes_packet (accepted or rejected is an outcome)");
-        mc_meta("bound", "frames: all <=3-line frames over lines {0,7,16,21,22,23,320,335} x {ttx,vps,wss,cc}; all windows of the 33/32/35-line frames; raw lines of 1..720 samples x 13 contexts x 3 positions, and x 7 further raw buffer geometries (field counts 16+17, 17+12, 6+17, 17+15 sequential; 17+17, 12+12 interlaced; 16+17 interlaced = invalid) x 6 contexts; configurations 4 data_identifiers x 10 (min,max) pairs of {184,368,1472,65504} x {PES, TS 0010, TS 1FFE} x 5 PTS (3-line frames: one of the 5 PTS per frame and configuration, rotating; quick: 3-line frames at the default size pair only, dense frames PTS rotating, raw at 3 size pairs and 2 data_identifiers); histories of <= %d frames from 14 letters x 24 configurations; coroutine buffer size vectors with <= %d deviations + 10 constant sizes; low-level functions: all <=3-line frames + dense windows + 12 frames with id variants / unencodable services / order faults x 2 (thorough 4) data_identifiers x 3 service masks x stuffing x 43 buffer sizes 2..516 (6 multiples of 46 + 5 refused sizes for fixed length; sizes 0,1 refused), raw: 23 sample counts x 18 (line, video standard) pairs (10 refused) x 4 first_pixel_positions (1 refused) x the same sizes", full_tier() ? 4 : 3, full_tier() ? 4 : 3);
+        mc_meta("bound", "frames: all <=3-line frames over lines {0,7,16,21,22,23,320,335} x {ttx,vps,wss,cc}; all windows of the 33/32/35-line frames; raw lines of 1..720 samples x 13 contexts x 3 positions, and x 7 further raw buffer geometries (field counts 16+17, 17+12, 6+17, 17+15 sequential; 17+17, 12+12 interlaced; 16+17 interlaced = invalid) x 6 contexts; configurations 4 data_identifiers x 10 (min,max) pairs of {184,368,1472,65504} x {PES, TS 0010, TS 1FFE} x 5 PTS (3-line frames: one of the 5 PTS per frame and configuration, rotating; quick: 3-line frames at the default size pair only, dense frames PTS rotating, raw at 3 size pairs and 2 data_identifiers); histories of <= %d frames from 14 letters x 24 configurations; coroutine buffer size vectors with <= %d deviations + 10 constant sizes; mixed interfaces: cor(A) read in part (14 buffer sizes 1..367) ; feed(X) ; cor(B) for 3 x 14 x 2 frames x 12 configurations; low-level functions: all <=3-line frames + dense windows + 12 frames with id variants / unencodable services / order faults x 2 (thorough 4) data_identifiers x 3 service masks x stuffing x 43 buffer sizes 2..516 (6 multiples of 46 + 5 refused sizes for fixed length; sizes 0,1 refused), raw: 23 sample counts x 18 (line, video standard) pairs (10 refused) x 4 first_pixel_positions (1 refused) x the same sizes", full_tier() ? 4 : 3, full_tier() ? 4 : 3);
         mc_meta("assume", "the TS demultiplexer gets a leading stuffing-only TS packet (its loss of a first one-TS-packet PES packet is C07's finding)");
         mc_meta("assume", "raw lines are checked by the parser only: the public demultiplexer does not deliver raw lines");
         mc_meta("assume", "WSS has 14 payload bits: bits 6,7 of the second sliced byte are not compared");
@@ -624,6 +682,7 @@ int main(int argc, char **argv)
         mc_pool("lowlevel-sliced", NLOWSLICED, lowsliced_case, NULL, 60);
         mc_pool("lowlevel-raw", (uint64_t) NLOW_RAW_N * NLOW_RAW_L, lowraw_case, NULL, 60);
         mc_pool("cor", NCORFRAMES * 12, cor_case, NULL, 120);
+        mc_pool("mixed", NLETTERS * 12, mixed_case, NULL, 120);
 
         static struct hist_arg ha[24]; int nha = 0;
         static const struct { unsigned mn, mx; } hs[3] = { { 184, 184 }, { 184, 368 }, { 368, 65504 } };
